@@ -684,6 +684,35 @@ def check(ctx):
                              'the characters\' own values' if keep else 'values renumbered from 0', 'fits in' if keep else 'exceeds', bits), stmt='permitted alphabet decision')
 
 
+    # ---- C05.R12: the presence bit of an OPTIONAL / DEFAULT component says whether the component is in the value -- `name in data` --, not whether its value is truthy or not None:
+    #      NULL is None, FALSE and 0 and the empty string are values (X.691 19.2)
+    ctx.rule('C05.R12', 'presence bits are decided by membership of the member name in the value, never by the member\'s value')
+    from .. import siblings as _sib
+    encs_ = _sib.members_encoders(model, ('per', 'uper'))
+    if len(encs_) < 2:
+        raise AnalysisError('C05.R12 found only %d members encoders' % len(encs_))
+    for f_ in encs_:
+        bad_ = _sib.presence_violations(f_)
+        ctx.instance('C05.R12', Model.qual(f_), '`name in data`' if not bad_ else 'VIOLATION', node=f_, file=f_._mod.rel)
+        for node_, why_ in bad_:
+            ctx.violation('C05.R12', f_._mod.rel, node_, Model.qual(f_), why_ + ': a present NULL (value None) or a falsy value gets presence bit 0 and is left out of the encoding, which is '
+                          'not the encoding X.691 19.2 prescribes for the value and does not decode back to it', stmt='presence by value')
+
+    # ---- C05.R13: the compilers re-configure the copy of a referenced type when the reference carries its own constraint (`a Octets (SIZE (2))` calls set_size_range again).
+    #      What a constructor derives from a parameter that it also hands to such a setter must be derived *in* the setter, or it describes the first constraint for ever.
+    ctx.rule('C05.R13', 'no attribute is derived in __init__ alone from a parameter that a set_* method of the object re-configures later')
+    from .. import siblings as _sib2
+    n_ctor, stale = _sib2.stale_derived_attributes(model, (PER, UPER))
+    ctx.instance('C05.R13', '%d constructors hand parameters to a set_* method; attributes derived from those parameters outside the setter: %d' % (n_ctor, len(stale)),
+                 'ok' if not stale else 'VIOLATION', nontrivial=n_ctor > 0)
+    for c_, ini_, a_, attr_, used_, setter_ in stale:
+        ctx.violation('C05.R13', c_.mod.rel, a_, Model.qual(ini_),
+                      '`%s` is computed from %s in the constructor only, while %s() - which the compiler calls again when a reference to the type carries its own constraint - sets the '
+                      'same parameter(s) anew: after that call self.%s still describes the first constraint and the encoding follows it (alignment, width, form), not the effective one'
+                      % (norm_stmt(a_), ', '.join(used_), setter_, attr_), stmt='derived attribute not refreshed by %s' % setter_)
+    if n_ctor < 3:
+        raise AnalysisError('C05.R13 found only %d constructors that call a setter' % n_ctor)
+
 MUTANTS = [
     dict(name='decoder: range <= 255 becomes < 255', file=PER, quick=True,
          old="""        _range = (maximum - minimum + 1)
